@@ -99,6 +99,7 @@ pub fn worker_main(prop: &'static dyn Prop, excl: Vec<String>) -> i32 {
     unsafe { libc::dup2(2, 1) };
     let mut proto = unsafe { std::fs::File::from_raw_fd(proto_fd) };
     install_panic_hook();
+    crate::host::poison_freed_memory(true);
 
     let handle = std::thread::Builder::new()
         .name("case".into())
